@@ -71,10 +71,10 @@ def cache_dir():
         with Lock('cache'):
             os.makedirs(d, exist_ok=True)
             keep = {tree_hash()}
-            # keep at most the two most recently used other trees (mutation runs flip between two trees)
+            # keep the five most recently used other trees (mutation runs flip between trees; a tree's cache is ~15-50 MB)
             others = sorted([x for x in os.listdir(CACHE_ROOT) if os.path.isdir(os.path.join(CACHE_ROOT, x)) and x not in keep and re.fullmatch(r'[0-9a-f]{16}', x)],
                             key=lambda x: os.path.getmtime(os.path.join(CACHE_ROOT, x)), reverse=True)
-            for x in others[1:]:
+            for x in others[5:]:
                 shutil.rmtree(os.path.join(CACHE_ROOT, x), ignore_errors=True)
     os.utime(d, None)
     return d
